@@ -72,3 +72,106 @@ Example C13_nonvacuous_literal :
   lex actual_table DSingle [39; 97; 92; 39] = None /\
   utf8_valid [39; 255; 39] = false.
 Proof. vm_compute. repeat split. Qed.
+
+(* ---- templates, on the VM fragment {push.str, abstract hole code, fstr.block.push/pop,
+   ld.fs} with the 20-slot hole stack and the 1000-entry value stack of rollvm.go *)
+
+(* hole_pushes_one: whatever the hole's code left above the saved height (any number of
+   values, any variable changes), after fstr.block.pop exactly one value is left there:
+   its top value, or "" if it left nothing; the stack below and the enclosing holes'
+   saved heights are untouched *)
+Theorem C13_hole_pushes_one :
+  forall (V E : Type) (tostr : V -> list N) (vstr : list N -> V) (cap : nat)
+         (c : list (instr V E)) (e : E) (base : list V) (fbs : list nat) (e' : E) (extra : list V),
+    (length fbs < FSTR_DEPTH)%nat -> length base <> cap -> length (extra ++ base) <> cap ->
+    exec V E tostr vstr cap c {| env := e; stk := base; fb := length base :: fbs |} =
+      Done {| env := e'; stk := extra ++ base; fb := length base :: fbs |} ->
+    exec V E tostr vstr cap (IFsPush :: c ++ [IFsPop]) {| env := e; stk := base; fb := fbs |} =
+      Done {| env := e'; stk := hole_val V vstr extra :: base; fb := fbs |}.
+Proof. exact hole_pushes_one_direct. Qed.
+Print Assumptions C13_hole_pushes_one.
+
+(* the same at any accepted nesting depth, on any stack (frame form) *)
+Theorem C13_hole_framed :
+  forall (V E : Type) (tostr : V -> list N) (vstr : list N -> V) (cap : nat)
+         (c : list (instr V E)) (s : hsem V E),
+    framed V E tostr vstr cap c s ->
+    framed V E tostr vstr cap (IFsPush :: c ++ [IFsPop]) (sem_hole V E vstr s).
+Proof. exact framed_hole. Qed.
+Print Assumptions C13_hole_framed.
+
+(* template_concat: a template whose holes hold well-behaved code (code that does not
+   look below its own stack entries — e.g. another template, to any depth) evaluates, on
+   top of ANY stack and inside ANY number of open holes, to exactly one string: the
+   concatenation in order of its literal segments and the string forms of its holes'
+   values; the variables are those the holes left, in order; a hole's error, the nesting
+   error at the 21st open hole, or the full-stack error are the only alternatives *)
+Theorem C13_template_concat :
+  forall (V E : Type) (tostr : V -> list N) (vstr : list N -> V) (cap : nat),
+    (forall s, tostr (vstr s) = s) ->
+    forall ps : list (tpart V E),
+      Forall (part_ok V E tostr vstr cap) ps ->
+      framed V E tostr vstr cap (compile V E ps) (tmpl_sem V E tostr vstr ps).
+Proof. exact template_concat. Qed.
+Print Assumptions C13_template_concat.
+
+(* the value being assembled is not disturbed: a template used as a hole is again
+   well-behaved, so the statement nests *)
+Theorem C13_template_nests :
+  forall (V E : Type) (tostr : V -> list N) (vstr : list N -> V) (cap : nat),
+    (forall s, tostr (vstr s) = s) ->
+    forall ps : list (tpart V E),
+      Forall (part_ok V E tostr vstr cap) ps ->
+      part_ok V E tostr vstr cap (THole (compile V E ps) (tmpl_sem V E tostr vstr ps)).
+Proof. exact template_is_part. Qed.
+Print Assumptions C13_template_nests.
+
+Theorem C13_nesting_limit_is_error :
+  forall (V E : Type) (tostr : V -> list N) (vstr : list N -> V) (cap : nat) (s : vmst V E),
+    (FSTR_DEPTH <= length (fb s))%nat ->
+    step V E tostr vstr cap IFsPush s = Err ENesting \/ step V E tostr vstr cap IFsPush s = Err EOverflow.
+Proof. exact nesting_limit_is_error. Qed.
+Print Assumptions C13_nesting_limit_is_error.
+
+(* abstract hole code built from the frame-respecting primitives is well-behaved *)
+Theorem C13_prim_framed :
+  forall (V E : Type) (tostr : V -> list N) (vstr : list N -> V) (cap : nat) (f : prim V E),
+    prim_ok V E f -> framed V E tostr vstr cap [IPrim f] (sem_prim V E f).
+Proof. exact framed_prim. Qed.
+Print Assumptions C13_prim_framed.
+
+(* non-vacuity on a concrete instance: values = sval, one integer variable.
+   `a{% x = x + 1 %}b{% x = x * 2 (no value) %}{`<{x}>`}` from x = 4, on a non-empty stack *)
+Definition ex_incr : prim sval Z := fun e st => Done ((e + 1)%Z, SInt (e + 1) :: SNull :: st).
+Definition ex_dbl : prim sval Z := fun e st => Done ((e * 2)%Z, st).
+Definition ex_load : prim sval Z := fun e st => Done (e, SInt e :: st).
+Definition ex_hole (f : prim sval Z) : tpart sval Z := THole [IPrim f] (sem_prim sval Z f).
+Definition ex_inner : list (tpart sval Z) := [TLit [60]; ex_hole ex_load; TLit [62]].
+Definition ex_tmpl : list (tpart sval Z) :=
+  [TLit [97]; ex_hole ex_incr; TLit [98]; ex_hole ex_dbl;
+   THole (compile sval Z ex_inner) (tmpl_sem sval Z sval_tostr SStr ex_inner)].
+Fixpoint ex_nest (n : nat) : list (tpart sval Z) :=
+  match n with
+  | O => [TLit [55]]
+  | S k => let inner := ex_nest k in
+           [TLit [76]; THole (compile sval Z inner) (tmpl_sem sval Z sval_tostr SStr inner)]
+  end.
+Definition ex_run (ps : list (tpart sval Z)) (x : Z) (base : list sval) :=
+  exec sval Z sval_tostr SStr 1000%nat (compile sval Z ps) {| env := x; stk := base; fb := [] |}.
+
+Example C13_nonvacuous_template :
+  (* "a5b<10>" with x = 10 afterwards, the stack below untouched *)
+  ex_run ex_tmpl 4 [SInt 9] = Done {| env := 10%Z; stk := [SStr [97; 53; 98; 60; 49; 48; 62]; SInt 9]; fb := [] |} /\
+  tmpl_sem sval Z sval_tostr SStr ex_tmpl 0%nat 4%Z = Done (10%Z, [SStr [97; 53; 98; 60; 49; 48; 62]]) /\
+  (* 20 nested holes are accepted, the 21st is the nesting error *)
+  ex_run (ex_nest 20%nat) 0 [] = Done {| env := 0%Z; stk := [SStr (repeat 76 20%nat ++ [55])]; fb := [] |} /\
+  ex_run (ex_nest 21%nat) 0 [] = Err ENesting /\
+  (* a stack that is full is the overflow error *)
+  exec sval Z sval_tostr SStr 1%nat (compile sval Z ex_tmpl) {| env := 0%Z; stk := [SNull]; fb := [] |} = Err EOverflow /\
+  (* code that pops below the saved height is outside the theorem: stale slots / panic *)
+  exec sval Z sval_tostr SStr 1000%nat [IFsPush; IPrim (fun e st => Done (e, tl (tl st))); IFsPop]
+       {| env := 0%Z; stk := [SNull; SNull; SNull]; fb := [] |} = Stale.
+Proof. vm_compute. repeat split. Qed.
+
+Example C13_nonvacuous_prims : prim_ok sval Z ex_incr /\ prim_ok sval Z ex_dbl /\ prim_ok sval Z ex_load.
+Proof. repeat split; intros e base; left; reflexivity. Qed.
